@@ -64,6 +64,21 @@ FAMILY = ["Administrator", "Beispiel", "Çelik", "Müller-Lüdenscheidt", "O'Nei
 NRS = ["1", "2", "10", "α", "A1", "3b", "11", "Ω-2", "9", "12", "100", "ζ", "1a", "20", "", "07", "7", "0", "0.5", "-1", ".5", " 7", "*", "00"]
 
 
+def gen_timestamp(r):
+    """a timestamp in the canonical RFC 3339 shape, fields at and beyond their limits (which days exist in which
+    month of which year, leap seconds, zone offsets); returns the string"""
+    y = r.choice([1970, 1999, 2000, 2023, 2024, 2025, 2100, 2400, 0, 9999, r.randint(1900, 2200)])
+    mo = r.choice([1, 2, 2, 2, 3, 4, 6, 9, 11, 12, r.randint(1, 12), 0, 13])
+    d = r.choice([1, 15, 28, 29, 29, 30, 30, 31, 31, 0, 32, r.randint(1, 28)])
+    h = r.choice([0, 12, 23, 23, 24, r.randint(0, 23)])
+    mi = r.choice([0, 30, 59, 59, 60, r.randint(0, 59)])
+    se = r.choice([0, 30, 59, 59, 60, 60, 61, r.randint(0, 59)])
+    frac = r.choice(["", "", ".5", ".906237", ".123456789", ".000", "."])
+    zone = r.choice(["Z", "Z", "z", "+00:00", "+01:00", "-05:30", "+23:59", "-23:59", "+24:00", "+01:60", "+14:00", ""])
+    sep = r.choice(["T", "T", "T", "t", " "])
+    return f"{y:04d}-{mo:02d}-{d:02d}{sep}{h:02d}:{mi:02d}:{se:02d}{frac}{zone}"
+
+
 def gen_export(r, rich=False, pre=False, many=False):
     """`pre`: many existing assignments (as attendee, as instructor of the same or of another course),
     tight sizes, --ignore-assigned forced"""
@@ -577,6 +592,51 @@ def stream_cdedb_read(seed, tier, workdir, stream):
                 nk = r.choice(["+", "0", "00"]) + k
                 if nk not in doc[coll]:
                     doc[coll][nk] = doc[coll].pop(k)
+        elif i % 20 == 10:
+            # timestamps at and beyond the limits of their fields (model and code must agree on acceptance)
+            doc["timestamp"] = gen_timestamp(r)
+            what = "dial:timestamp"
+        elif i % 20 == 14:
+            # members the reader converts with as_u64 / as_i64 / as_f64 in other number shapes
+            t = str(info["sel_track"])
+            odd = lambda: r.choice([-1, 0, 1.0, 2.0, 10.5, "3", None, True, 2 ** 32 - 2, 2 ** 63, 2 ** 64 - 1, 2 ** 64, -2 ** 63, -2 ** 63 - 1, 1e2, [1], {}])
+            k = r.randrange(6)
+            if k == 0:
+                for p_ in doc["event"]["parts"].values():
+                    for tv in (p_.get("tracks") or {}).values():
+                        if isinstance(tv, dict) and r.random() < 0.7:
+                            tv["num_choices"] = r.choice([None, "3", 3.0, -1, 0, 7, 4294967294, "missing"])
+                            if tv["num_choices"] == "missing":
+                                del tv["num_choices"]
+            elif k == 1:
+                c_ = r.choice(list(doc["courses"].values())); c_[r.choice(["min_size", "max_size"])] = odd()
+            elif k == 2:
+                rg = r.choice(list(doc["registrations"].values()))
+                if t in rg["tracks"]:
+                    rg["tracks"][t][r.choice(["course_id", "course_instructor"])] = odd()
+            elif k == 3:
+                rg = r.choice(list(doc["registrations"].values()))
+                for pv in rg["parts"].values():
+                    pv["status"] = odd()
+            elif k == 4:
+                doc["id"] = odd()
+            else:
+                rg = r.choice(list(doc["registrations"].values()))
+                if t in rg["tracks"] and rg["tracks"][t]["choices"]:
+                    ch = rg["tracks"][t]["choices"]
+                    rg["tracks"][t]["choices"] = ch + [r.choice(ch)] + ch[:1] * r.randint(0, 2)   # repeated ids, longer than num_choices
+            what = "dial:number-shapes"
+        elif i % 20 == 18:
+            # junk keys beside the selected part / track; the same option for factor and offset; an empty field name
+            k = r.randrange(3)
+            if k == 0:
+                sp = str(info["sel_part"])
+                doc["event"]["parts"][sp]["tracks"][r.choice(["x", "", "1e1", "-1"])] = r.choice([None, {}, {"shortname": "J", "num_choices": 1}])
+            elif k == 1:
+                opts["rff"] = opts["rof"] = r.choice(["room_factor", "room_offset"])
+            else:
+                opts[r.choice(["rff", "rof"])] = ""
+            what = "dial:keys-options"
         cases.append({"doc": doc, "opts": opts, "info": info, "corruption": what})
     return cases
 
@@ -896,6 +956,9 @@ def tag(v):
     if isinstance(v, str):
         return {"s": v}
     if isinstance(v, int):
+        if v >= 2 ** 64 or v < -2 ** 63:
+            # serde_json reads such an integer as a float (as the Rust side of the reader runner does)
+            return {"f": struct.unpack("Q", struct.pack("d", float(v)))[0]}
         return {"u": v} if v >= 0 else {"i": v}
     if isinstance(v, float):
         return {"f": struct.unpack("Q", struct.pack("d", v))[0]}
